@@ -39,6 +39,11 @@ ASSUME = [
 PARAMS_QUICK = ["1:1:64:64", "1:0:64:64", "0:0:64:64", "1:1:2:3", "0:0:2:2", "1:0:1:2"]
 PARAMS_ALL = ["%d:%d:%d:%d" % (s, n, c, m) for s in (0, 1) for n in (0, 1)
               for (c, m) in ((1, 1), (1, 2), (2, 3), (3, 3), (4, 8), (64, 64))]
+# the 16 settings of the mirrored stream adapt-histories: both flags x four (max_smashable_cells, max_array_size)
+# pairs (the constructor of array_adaptive_domain_params rejects max_smashable_cells > max_array_size)
+PARAMS_MIRROR = ["%d:%d:%d:%d" % (s, n, c, m) for s in (0, 1) for n in (0, 1)
+                 for (c, m) in ((1, 2), (2, 3), (4, 8), (64, 64))]
+NEG_CELL = re.compile(r"[{,]-\d+:")
 
 
 def const_sizes(line):
@@ -180,6 +185,57 @@ def search(rep, tier, seed, targets, nper):
                                   % (w2, mode, stream, k, len(hits), l2, l, mode), True)
 
 
+def adapt_histories(rep, tier, seed):
+    """array_adaptive_domain<interval_domain> against its mirror model (Dom/ArrayAdapt.v), state and shape of
+    every array after every step, for the 16 parameter settings.  Mirrored sub-language: histories without
+    meet / narrowing (after them a cell can keep its ghost variable without being in the offset map: the code
+    then hands out a new variable where the model has a fixed name) and without cells at negative offsets
+    (offset_t wraps them to huge unsigned numbers).  Both are left to the oracle search."""
+    quick = tier == "quick"
+    known = [k for k in vlib.load_known().get("findings", []) if k.get("property") == "C14"]
+    drv, err = vlib.build_driver("arrays")
+    if err:
+        rep.violation("adapt-histories-driver", "model driver arrays: %s" % err, False)
+        return
+    outd = os.path.join(vlib.VERIF, "out", "C14")
+    os.makedirs(outd, exist_ok=True)
+    nstd, nmix = (220, 80) if quick else (2500, 1000)
+    skipped = 0
+    for pi, p in enumerate(PARAMS_MIRROR):
+        name = "adapt-histories-" + p.replace(":", "_")
+        lines = arrays.gen(seed + 31 * (pi + 1), tier, nstd, {"meets": False, "head": "ashape", "corpus": pi % 4 == 0})
+        # element sizes other than the one of the array, constant offsets that are not multiples of it
+        lines += arrays.gen(seed + 977 + pi, tier, nmix, {"meets": False, "head": "ashape", "mixsz": True, "corpus": False})
+        if vlib.REPLAY is None:
+            cf = os.path.join(outd, name + ".pre.cases")
+            with open(cf, "w") as f:
+                f.write("\n".join(lines) + "\n")
+            rc, out = vlib.sh([drv, "--mode=adapt-itv:" + p, cf], timeout=900)
+            neg = set()
+            for l in out.split("\n"):
+                if l.startswith("R ") and NEG_CELL.search(l):
+                    neg.add(int(l.split(" ", 2)[1]))
+            skipped += len(neg)
+            lines = [l for i, l in enumerate(lines) if i not in neg]
+
+        def orc(line, a, rng=None, _p=p):
+            if a.startswith("ABORT") or a == "MISSING":
+                return None
+            w = arrays.oracle(line, a)
+            if not w:
+                return None
+            w = shape_at_failure(line, a, w)
+            kn = domall.match_known(known, "C14", "search-adapt-itv-" + _p.replace(":", "_"), line, w)
+            if kn:
+                rep.known_finding("%s [adapt-histories, mode adapt-itv:%s] input: %s" % (kn["what"], _p, line))
+                return None
+            return w
+        vlib.run_stream(rep, name, "arrays", "arrays", lines, oracle=orc, oracle_all=False,
+                        nontrivial=arrays.nontrivial, key=lambda l: "history", extra_args=("--mode=adapt-itv:" + p,))
+    rep.cov.setdefault("adapt_histories", {})["skipped_negative_offsets"] = skipped
+    rep.cov["adapt_histories"]["settings"] = PARAMS_MIRROR
+
+
 def run(rep, tier, seed):
     rep.cov["trusted_base"] = TRUSTED
     rep.cov["rule"] = ("array histories: corpus of past failures, then seeded random histories (6-28 operations over 2-3 registers, "
@@ -203,7 +259,11 @@ def run(rep, tier, seed):
     lines = arrays.gen_cells(seed, tier, 3000 if quick else 40000)
     vlib.run_stream(rep, "cell-algebra", "arrays", "arrays", lines, oracle=None,
                     nontrivial=arrays.cells_nontrivial, key=lambda l: "cells", extra_args=("--mode=cells",))
-    # 3. oracle search on the real domains
+    # 3. array_adaptive_domain<interval_domain> against the mirror model, all 16 parameter settings
+    t0 = time.time()
+    adapt_histories(rep, tier, seed)
+    rep.cov.setdefault("adapt_histories", {})["wall_s"] = round(time.time() - t0, 1)
+    # 4. oracle search on the real domains
     t0 = time.time()
     params = PARAMS_QUICK if quick else PARAMS_ALL
     targets = [("smash-zones", "smash-zones", {})]
@@ -227,6 +287,9 @@ def replay(path):
         return 2
     line = m.group(1)
     mode = mm.group(1) if mm else ("cells" if line.startswith("cells") else "smash-itv")
+    ms = re.search(r"(?m)^stream=adapt-histories-(\S+)", txt)
+    if ms and not mm:
+        mode = "adapt-itv:" + ms.group(1).replace("_", ":")
     d = os.path.join(vlib.VERIF, "out", "C14")
     os.makedirs(d, exist_ok=True)
     cf = os.path.join(d, "replay.cases")
@@ -237,7 +300,7 @@ def replay(path):
         print(err); return 2
     rc, out = vlib.sh([exe, "--mode=" + mode, cf])
     print("implementation:", out.strip())
-    if mode in ("smash-itv", "cells"):
+    if mode in ("smash-itv", "cells") or mode.startswith("adapt-itv"):
         drv, err = vlib.build_driver("arrays")
         if not err:
             rc, out = vlib.sh([drv, "--mode=" + mode, cf])
